@@ -194,7 +194,7 @@ PROPS = {
         module="Bita.Props.C01",
         level="proof",
         needs_bita=True,
-        required_theorems=["compress_conforms", "roundtrip", "cli_roundtrip", "roundtrip_over_http", "stages_preserve_order", "temp_file_complete", "lib_temp_file_flushed_fact", "cli_accepted_options_are_valid"],
+        required_theorems=["compress_conforms", "roundtrip", "cli_roundtrip", "roundtrip_over_http", "stages_preserve_order", "temp_file_complete", "lib_temp_file_flushed_fact", "cli_accepted_options_are_valid", "cli_roundtrip_from_the_command_line"],
         suites=dict(quick=[("py", "c01_roundtrip"), ("l1", "c08-http"), ("l1", "opts")], thorough=[("py", "c01_roundtrip"), ("py", "c12_determinism"), ("l1", "c08-http"), ("l1", "opts")]),
         rule="random sources (empty, 1 byte, zeros, constant, repetitive blocks, text, random; up to 20 kB) x random valid configs x hash "
              "lengths x none/brotli levels x buffer counts x file/stdin; oracles: clone output == source, info reports size and Blake2 "
@@ -372,7 +372,7 @@ PROPS = {
         module="Bita.Props.C15",
         level="proof",
         needs_bita=True,
-        required_theorems=["tryInit_total", "accepted_archive_is_safe", "scan_is_bounded", "accepted_iff_valid", "accepted_archive_scan_is_bounded", "server_bytes_safe", "remote_open_total", "local_open_total", "local_header_read_allocation_bounded", "remote_header_read_buffering_bounded", "decoded_chunk_follows_declared_sizes", "accepted_archive_ranges_fit_u64", "remote_reader_sums_are_chunk_ends", "decoded_chunk_has_declared_size", "accepted_archive_chunker_allocation_bounded", "accepted_archive_scan_buffer_bounded", "chunker_wants_data_only_below_max"],
+        required_theorems=["tryInit_total", "accepted_archive_is_safe", "scan_is_bounded", "accepted_iff_valid", "accepted_archive_scan_is_bounded", "server_bytes_safe", "remote_open_total", "local_open_total", "local_header_read_allocation_bounded", "remote_header_read_buffering_bounded", "decoded_chunk_follows_declared_sizes", "accepted_archive_ranges_fit_u64", "remote_reader_sums_are_chunk_ends", "decoded_chunk_has_declared_size", "accepted_archive_chunker_allocation_bounded", "accepted_archive_scan_buffer_bounded", "chunker_wants_data_only_below_max", "decompression_buffer_never_exceeds_declared_size", "decompression_exact_or_error", "limited_decomp_is_the_sink"],
         suites=dict(quick=[("l1", "fmt"), ("py", "c15_cli"), ("l1", "c08-http"), ("l1", "c08-io")], thorough=[("l1", "fmt"), ("py", "c15_cli"), ("l1", "c08-http"), ("l1", "c08-io")]),
         rule="library: random/wild dictionaries under header::build, wire-level crafted dictionaries and declared-size/offset lies under a "
              "recomputed checksum, bit flips, truncations, random bytes; CLI: 22 field mutations x 4 commands + 13 server scripts; "
